@@ -168,6 +168,53 @@ int cmdEdits(int argc, char** argv) {
 					fileEvent(out, caseOf(k), "raw", nif, saveToString(nif, false, false), ids, ops.done());
 				}
 			}
+			// the file is written behind other content of the stream (a model inside a container), and copies of a model
+			// (copy constructor, assignment into an object that holds another model) are saved
+			{
+				ContentIds ids;
+				NifFile at;
+				if (at.Load(samplePath(cases[k].file)) == 0) {
+					const size_t offs[] = {16, 4099};
+					for (size_t pre : offs)
+						for (int opt = 0; opt < 2; opt++) {
+							std::ostringstream os(std::ios::binary);
+							std::string prefix(pre, 'P');
+							os.write(prefix.data(), std::streamsize(pre));
+							NifSaveOptions so;
+							so.optimize = so.sortBlocks = opt != 0;
+							markPhase(3);
+							at.Save(os, so);
+							std::string all = os.str();
+							JArr ops;
+							ops.add("saved at stream offset " + std::to_string(pre) + (all.compare(0, pre, prefix) == 0 ? "" : " (the bytes in front were overwritten)"));
+							fileEvent(out, caseOf(k), opt ? "default" : "raw", at, all.size() >= pre ? all.substr(pre) : std::string(), ids, ops.done());
+						}
+					{
+						NifFile made;
+						made.Create(at.GetHeader().GetVersion());
+						MatTransform t;
+						made.AddNode("created", t);
+						std::ostringstream os(std::ios::binary);
+						os.write("0123456789", 10);
+						made.Save(os, NifSaveOptions());
+						JArr ops;
+						ops.add("created model saved at stream offset 10");
+						fileEvent(out, caseOf(k), "default", made, os.str().substr(10), ids, ops.done());
+					}
+					NifFile viaCtor(at);
+					NifFile viaAssign;
+					viaAssign.Load(samplePath(files[(k + 3) % files.size()]));
+					viaAssign = at;
+					NifFile* copies[] = {&viaCtor, &viaAssign};
+					for (int c = 0; c < 2; c++) {
+						JArr ops;
+						ops.add(c ? "assigned into an object that held another model" : "copy-constructed");
+						fileEvent(out, caseOf(k), "raw", *copies[c], saveToString(*copies[c], false, false), ids, ops.done());
+						fileEvent(out, caseOf(k), "default", *copies[c], saveToString(*copies[c], true, true), ids, ops.done());
+					}
+				}
+				markPhase(2);
+			}
 			// files in which one block type, and all of them, are unknown to the library
 			{
 				std::string bytes = readFile(samplePath(cases[k].file));
@@ -184,6 +231,24 @@ int cmdEdits(int argc, char** argv) {
 						ops.add("types unknown: " + std::to_string(U.size()) + " (" + U[0] + ")");
 						fileEvent(out, caseOf(k), "raw", un, saveToString(un, false, false), ids, ops.done());
 						fileEvent(out, caseOf(k), "default", un, saveToString(un, true, true), ids, ops.done());
+						// copies of it: a fresh object, and objects that held another model before
+						{
+							NifFile viaCtor(un);
+							NifFile viaAssign;
+							viaAssign.Load(samplePath(files[(k + 5) % files.size()]));
+							viaAssign = un;
+							NifFile viaCopyFrom;
+							viaCopyFrom.Create(un.GetHeader().GetVersion());
+							viaCopyFrom.CopyFrom(un);
+							NifFile* copies[] = {&viaCtor, &viaAssign, &viaCopyFrom};
+							const char* hows[] = {"copy-constructed", "assigned into an object that held another model", "CopyFrom into a created model"};
+							for (int c = 0; c < 3; c++) {
+								JArr ops2;
+								ops2.add("types unknown: " + std::to_string(U.size()) + " (" + U[0] + "), " + hows[c]);
+								fileEvent(out, caseOf(k), "raw", *copies[c], saveToString(*copies[c], false, false), ids, ops2.done());
+								fileEvent(out, caseOf(k), "default", *copies[c], saveToString(*copies[c], true, true), ids, ops2.done());
+							}
+						}
 						// a known block gets a longer name than any string of the table
 						if (auto root = un.GetRootNode()) {
 							root->name.get() = "a name that is longer than the strings of the unknown blocks, by a fair margin";
